@@ -44,6 +44,11 @@ static void *vp_realloc_evmap(void *p, size_t sz)
 static void *vp_realloc_backend(void *p, size_t sz)
 {
 	void *q;
+#ifdef VP_FDSET_INPLACE_REALLOC
+	/* select.c only: fd_sets are handed out as whole fd_set objects (see below), so growing one up to sizeof(fd_set)
+	 * is an in-place realloc: same block, old bytes kept, new bytes indeterminate (select_resize clears them) */
+	if (p != NULL && sz <= sizeof(fd_set)) { vp_alloc_calls++; return p; }
+#endif
 	vp_realloc_grow_check(p);
 	vp_alloc_calls++;
 	if (sz == 32 * sizeof(struct pollfd)) q = malloc(32 * sizeof(struct pollfd));          /* poll_add: event_set[32] */
